@@ -3,6 +3,7 @@ package pool
 import (
 	"errors"
 	"fmt"
+	"net"
 	"net/url"
 
 	"github.com/vipnode/vipnode/v2/internal/pretty"
@@ -20,7 +21,7 @@ func normalizeNodeURI(nodeURI, nodeID, defaultHost, defaultPort string) (string,
 			return "", err
 		}
 
-		if h := uri.Hostname(); h != "::" && h != "" {
+		if h := uri.Hostname(); h != "" && !isUnspecifiedHost(h) {
 			host = h
 		}
 
@@ -33,14 +34,21 @@ func normalizeNodeURI(nodeURI, nodeID, defaultHost, defaultPort string) (string,
 		}
 	}
 
-	if host == "" || host == "[::]" {
+	if host == "" || isUnspecifiedHost(host) {
 		return "", errors.New("NodeURI is missing host")
 	}
 
 	u := &url.URL{
 		Scheme: "enode",
 		User:   url.User(nodeID),
-		Host:   host + ":" + port,
+		Host:   net.JoinHostPort(host, port), // Adds brackets around IPv6 literals
 	}
 	return u.String(), nil
+}
+
+// isUnspecifiedHost returns true if the host is an unspecified IP address
+// such as :: or 0.0.0.0, which other nodes can't dial.
+func isUnspecifiedHost(host string) bool {
+	ip := net.ParseIP(host)
+	return ip != nil && ip.IsUnspecified()
 }
